@@ -101,3 +101,70 @@ Print Assumptions C16_drift_split_track.
 Print Assumptions C16_quad_split_track.
 Print Assumptions C16_pieces_in_sequence.
 Print Assumptions C16_nonvacuous.
+
+(** ---- finding F29 repaired: [split_fixed] is the model of the code in which HorizontalCorrector.split /
+    VerticalCorrector.split return [self] when num_splits < 1 (a zero-length corrector cannot be split).  [split] above stays
+    the model of the code as it was; which one is the faithful model is decided by the status of F29 in known_findings.json. *)
+
+(* the angles of the pieces add up to the angle for EVERY length (incl. 0) and every resolution: no hypothesis is left *)
+Theorem C16_corrector_split_angle_fixed : forall (res L a : Q),
+  fold_right (fun p s => sangle p + s) 0 (split_fixed res (SHCor L a)) == a /\
+  fold_right (fun p s => sangle p + s) 0 (split_fixed res (SVCor L a)) == a.
+Proof. exact corrector_split_angle_fixed. Qed.
+
+(* a corrector never splits into nothing; the thin one is returned as it is *)
+Theorem C16_split_nonempty_fixed : forall (res L a : Q),
+  split_fixed res (SHCor L a) <> [] /\ split_fixed res (SVCor L a) <> [].
+Proof. exact split_nonempty_fixed. Qed.
+
+Theorem C16_thin_corrector_split_fixed : forall (res a : Q),
+  split_fixed res (SHCor 0 a) = [SHCor 0 a] /\ split_fixed res (SVCor 0 a) = [SVCor 0 a].
+Proof. exact thin_corrector_split_fixed. Qed.
+
+(* Segment.split never loses a kick: over every nesting of segments the angles of all pieces add up to the total angle set
+   on the correctors, for all lengths and resolutions ... *)
+Theorem C16_split_fixed_total_angle : forall (res : Q) (e : sel),
+  fold_right (fun p s => sangle p + s) 0 (split_fixed res e) == tot_angle e.
+Proof. exact split_fixed_total_angle. Qed.
+
+(* ... which the code before the repair did not achieve *)
+Theorem C16_split_total_angle_refuted : forall (res : Q) (m : string) (a : Q), 0 < res -> ~ a == 0 ->
+  ~ fold_right (fun p s => sangle p + s) 0 (split res (SSeg [SDrift 1 m; SHCor 0 a])) == tot_angle (SSeg [SDrift 1 m; SHCor 0 a]).
+Proof. exact split_total_angle_refuted. Qed.
+
+(* lengths add up and no piece is longer than the resolution, as before (the kept thin corrector has length 0) *)
+Theorem C16_split_sum_fixed : forall (res : Q) (e : sel), 0 < res -> nonneg e ->
+  fold_right (fun p a => slen p + a) 0 (split_fixed res e) == slen e.
+Proof. exact split_fixed_sum. Qed.
+
+Theorem C16_split_bound_fixed : forall (res : Q) (e : sel), 0 < res -> nonneg e ->
+  Forall (fun p => splittable p = true -> slen p <= res) (split_fixed res e).
+Proof. exact split_fixed_bound. Qed.
+
+(* where every corrector has a length (cor_pos) the repair changes nothing: every theorem about [split] carries over *)
+Theorem C16_split_fixed_eq_split : forall (res : Q) (e : sel), 0 < res -> cor_pos e -> split_fixed res e = split res e.
+Proof. exact split_fixed_eq_split. Qed.
+
+Theorem C16_segment_split_concat_fixed : forall res e es1 es2,
+  split_fixed res (SSeg (e :: es1)) = split_fixed res e ++ split_fixed res (SSeg es1) /\
+  split_fixed res (SSeg (es1 ++ es2)) = split_fixed res (SSeg es1) ++ split_fixed res (SSeg es2).
+Proof. exact (fun res e es1 es2 => conj (segment_split_fixed_cons res e es1) (segment_split_fixed_concat res es1 es2)). Qed.
+
+(* non-vacuity: a zero-length drift still gives no piece, the thin corrector is kept, the thick one is split *)
+Example C16_nonvacuous_fixed :
+  split_fixed (1#4) (SSeg [SDrift 0 "cheetah"; SHCor 0 (1#100); SVCor (1#2) (1#100)])
+  = [SHCor 0 (1#100); SVCor ((1#2) / 2) ((1#100) / 2); SVCor ((1#2) / 2) ((1#100) / 2)]
+  /\ split (1#4) (SSeg [SDrift 0 "cheetah"; SHCor 0 (1#100); SVCor (1#2) (1#100)])
+  = [SVCor ((1#2) / 2) ((1#100) / 2); SVCor ((1#2) / 2) ((1#100) / 2)].
+Proof. vm_compute. split; reflexivity. Qed.
+
+Print Assumptions C16_corrector_split_angle_fixed.
+Print Assumptions C16_split_nonempty_fixed.
+Print Assumptions C16_thin_corrector_split_fixed.
+Print Assumptions C16_split_fixed_total_angle.
+Print Assumptions C16_split_total_angle_refuted.
+Print Assumptions C16_split_sum_fixed.
+Print Assumptions C16_split_bound_fixed.
+Print Assumptions C16_split_fixed_eq_split.
+Print Assumptions C16_segment_split_concat_fixed.
+Print Assumptions C16_nonvacuous_fixed.
